@@ -2347,7 +2347,7 @@ func fixUntyped(nod *node, typ *itype, sc *scope) {
 			return true
 		}
 		n.typ = typ
-		if n.findex >= 0 {
+		if n.findex >= 0 && !n.rval.IsValid() {
 			sc.types[n.findex] = typ.frameType()
 		}
 		return true
